@@ -157,10 +157,15 @@ func (unescapeMapping) Span(src []byte, atEOF bool) (n int, err error) {
 			}
 			return n, transform.ErrShortSrc
 		case len(src) - 2:
-			if atEOF || !ishex(src[n+1]) {
+			if atEOF {
 				return len(src), nil
 			}
-			return n, transform.ErrShortSrc
+			if ishex(src[n+1]) {
+				return n, transform.ErrShortSrc
+			}
+			// Not an escape sequence, but the next byte may start one.
+			n++
+			continue
 		}
 
 		if shouldUnescape(src[n+1 : n+3]) {
@@ -197,16 +202,15 @@ func (t unescapeMapping) Transform(dst, src []byte, atEOF bool) (nDst, nSrc int,
 				return nDst, nSrc, transform.ErrShortDst
 			}
 			return nDst, nSrc, transform.ErrShortSrc
-		case idx == len(src[nSrc:])-2:
-			if atEOF || !ishex(src[nSrc+idx+1]) {
-				n := copy(dst[nDst:], src[nSrc:])
-				nDst += n
-				nSrc += n
-				if nSrc < len(src) {
-					return nDst, nSrc, transform.ErrShortDst
-				}
-				return
+		case idx == len(src[nSrc:])-2 && atEOF:
+			n := copy(dst[nDst:], src[nSrc:])
+			nDst += n
+			nSrc += n
+			if nSrc < len(src) {
+				return nDst, nSrc, transform.ErrShortDst
 			}
+			return
+		case idx == len(src[nSrc:])-2 && ishex(src[nSrc+idx+1]):
 			n := copy(dst[nDst:], src[nSrc:nSrc+idx])
 			nDst += n
 			nSrc += n
@@ -216,7 +220,10 @@ func (t unescapeMapping) Transform(dst, src []byte, atEOF bool) (nDst, nSrc int,
 			return nDst, nSrc, transform.ErrShortSrc
 		}
 
-		if shouldUnescape(src[nSrc+idx+1 : nSrc+idx+3]) {
+		// If the escape char is second to last and is not followed by a hex digit
+		// it is not part of an escape sequence, but the last byte may start one:
+		// copy through the escape char and look at the rest again.
+		if idx < len(src[nSrc:])-2 && shouldUnescape(src[nSrc+idx+1:nSrc+idx+3]) {
 			n := copy(dst[nDst:], src[nSrc:nSrc+idx])
 			nDst += n
 			nSrc += n
